@@ -43,6 +43,59 @@ ELEMENTWISE_TORCH = {"torch.mul", "torch.div", "torch.addcmul", "torch.addcdiv",
 SHAPE_PROBES = ("shape", "size", "numel", "dim", "ndimension", "ndim", "diag_shape", "matrix_shape")
 
 
+_SG_CACHE: Dict[int, Set[str]] = {}
+
+
+def shape_guard_functions(idx: ProgramIndex) -> Set[str]:
+    """Names of the package's shape-validation helpers, found structurally (not by spelling): module-level functions
+    with at least two parameters that RAISE under a comparison of (elements of) their first two parameters and
+    otherwise return a shape built from them - today `utils.broadcasting._matmul_broadcast_shape`."""
+    key = id(idx)
+    if key in _SG_CACHE:
+        return _SG_CACHE[key]
+    out: Set[str] = set()
+    for m in idx.modules.values():
+        for name, fn in m.functions.items():
+            ps = fn.params()
+            if len(ps) < 2 or not isinstance(fn.node, ast.FunctionDef):
+                continue
+            a, b = ps[0], ps[1]
+            # locals derived from a / b by subscripting:  m, n, p = shape_a[-2], shape_a[-1], shape_b[-1]
+            src: Dict[str, Set[str]] = {a: {a}, b: {b}}
+            for st in ast.walk(fn.node):
+                if isinstance(st, ast.Assign):
+                    tg = st.targets[0]
+                    if isinstance(tg, ast.Tuple) and isinstance(st.value, ast.Tuple) and len(tg.elts) == len(st.value.elts):
+                        pairs = list(zip(tg.elts, st.value.elts))
+                    else:
+                        pairs = [(tg, st.value)]
+                    for t_, v_ in pairs:
+                        if isinstance(t_, ast.Name):
+                            roots = {x.id for x in ast.walk(v_) if isinstance(x, ast.Name) and x.id in src}
+                            if roots and all(isinstance(y, (ast.Subscript, ast.Name, ast.Constant, ast.UnaryOp, ast.Slice, ast.Load, ast.USub, ast.Index))
+                                             for y in ast.walk(v_)):
+                                src.setdefault(t_.id, set()).update(set().union(*[src[r] for r in roots]))
+            ok = False
+            for st in ast.walk(fn.node):
+                if isinstance(st, ast.If) and any(isinstance(x, ast.Raise) for x in ast.walk(st)):
+                    for c in ast.walk(st.test):
+                        if isinstance(c, ast.Compare) and isinstance(c.ops[0], (ast.NotEq, ast.Eq)):
+                            roots = set()
+                            for x in ast.walk(c):
+                                if isinstance(x, ast.Name) and x.id in src:
+                                    roots |= src[x.id]
+                            if {a, b} <= roots:
+                                ok = True
+            returns_shape = any(isinstance(x, ast.Return) and x.value is not None and any(
+                isinstance(y, ast.Name) and y.id in src for y in ast.walk(x.value)) for x in ast.walk(fn.node))
+            if ok and returns_shape and "shape" in (a + b).lower():
+                out.add(name)
+    if not out:
+        raise AnalysisError("no shape-validation helper (a function raising on incompatible shapes of its two operands) found")
+    _SG_CACHE[key] = out
+    return out
+
+
 def fname(fn: FunctionInfo) -> str:
     return f"{fn.cls.name}.{fn.name}" if fn.cls else fn.qualname
 
@@ -53,7 +106,7 @@ class Analysis:
         self.fn = fn
         self.operand = operand
         self.depth = depth
-        self._callee_cache: Dict[int, bool] = {}
+        self._callee_cache: Dict[tuple, bool] = {}
         self.self_name = fn.params()[0]
         self.cfg = CFG(fn)
         self.tainted: Set[str] = {operand}
@@ -125,13 +178,18 @@ class Analysis:
         targ = [a for a in args if self.mentions_taint(a)]
         if not targ:
             return False
-        if d and d.split(".")[-1] == "_matmul_broadcast_shape":
+        if d and d.split(".")[-1] in shape_guard_functions(self.idx):
             return True
         if d in TORCH_CONTRACTIONS:
             others = [a for a in args if not self.mentions_taint(a)]
             return any(self.is_selfd(a) for a in others) or any(self.is_selfd(a) for a in args if a not in targ)
         if isinstance(c.func, ast.Name) and c.func.id in getattr(self, "apply_aliases", ()):
             return any(self.is_selfd(a) for a in args)
+        if isinstance(c.func, ast.Call) and self.fn.cls is not None and self.depth == 0:
+            # self._pick_routine()(operand): a bound method chosen from a table of method names / returned as self.<m>
+            targets = self._dispatch_targets(c.func)
+            if targets:
+                return all(self._callee_validates(c, m_) for m_ in targets)
         if isinstance(c.func, ast.Attribute):
             m = c.func.attr
             recv = c.func.value
@@ -147,10 +205,48 @@ class Analysis:
                 return self._callee_validates(c, m)
         return False
 
+    def _dispatch_targets(self, inner: ast.Call) -> List[str]:
+        """Names of the methods of self that `self.<picker>()` can return: every `return self.<m>` and every string
+        constant of a class-level / module-level table the picker iterates or indexes that names a method of the class
+        (`getattr(self, name)`)."""
+        if not (isinstance(inner.func, ast.Attribute) and isinstance(inner.func.value, ast.Name) and inner.func.value.id == self.self_name):
+            return []
+        picker = self.idx.resolve_method(self.fn.cls, inner.func.attr)
+        if picker is None:
+            return []
+        out: List[str] = []
+        uses_getattr = False
+        for n in ast.walk(picker.node):
+            if isinstance(n, ast.Return) and isinstance(n.value, ast.Attribute) and isinstance(n.value.value, ast.Name) \
+                    and n.value.value.id == (picker.params()[0] if picker.params() else "self"):
+                out.append(n.value.attr)
+            if isinstance(n, ast.Call) and isinstance(n.func, ast.Name) and n.func.id == "getattr":
+                uses_getattr = True
+        if uses_getattr:
+            tables = []
+            for n in ast.walk(picker.node):
+                nm = n.attr if isinstance(n, ast.Attribute) else (n.id if isinstance(n, ast.Name) else None)
+                if nm is None:
+                    continue
+                for k in self.fn.cls.mro:
+                    if nm in k.class_attrs:
+                        tables.append(k.class_attrs[nm])
+                if nm in picker.module.globals_:
+                    tables.append(picker.module.globals_[nm])
+            for t in tables:
+                for x in ast.walk(t):
+                    if isinstance(x, ast.Constant) and isinstance(x.value, str) and self.idx.resolve_method(self.fn.cls, x.value) is not None:
+                        out.append(x.value)
+        seen = []
+        for m_ in out:
+            if m_ not in seen:
+                seen.append(m_)
+        return seen
+
     def _callee_validates(self, c: ast.Call, m: str) -> bool:
         """self.helper(operand): the helper - under the type tests that dominate the call - raises on every path
         unless a shape guard on the corresponding parameter is passed."""
-        key = id(c)
+        key = (id(c), m)
         if key in self._callee_cache:
             return self._callee_cache[key]
         self._callee_cache[key] = False
